@@ -483,10 +483,20 @@ def case_pwl(**p):
     far = core.far_arrays(out.reshape(-1), np.array(xs, dtype=object), tau)
     case.solve('pwl-distance-to-true-projection<=tau[N=%d,tau=%s]' % (p['N'], tau), far,
                assumptions=core.box(w, -2, 2) + kk, witness=dict(w=w), timeout=200, sig=dict(query='pwl-nearest'),
-               replay=None, required=False)
+               inline_replay=lambda m: _pwl_nearest_replay(m, tr, w, xs, tau), required=False)
     case.solve('twin:pwl-kkt-point-exists', z3.BoolVal(True), assumptions=core.box(w, -2, 2) + kk, expect='sat', kind='twin',
                timeout=60)
   return case
+
+
+def _pwl_nearest_replay(m, tr, w, xs, tau):
+  """real project_all_constraints on the witness kernel against the true projection (the KKT point of the model)"""
+  wn = core.model_np(m, w)
+  got = np.asarray(tr.tf_run(wn)[0], dtype=np.float64).reshape(-1)
+  want = core.model_np(m, np.array(xs, dtype=object)).reshape(-1)
+  d = float(np.max(np.abs(got - want)))
+  return dict(reproduced=bool(d > float(tau) - 1e-4), detail=dict(kernel=wn.reshape(-1).tolist(), projected=got.tolist(),
+                                                                  nearest_feasible=want.tolist(), max_abs_distance=d, tau=float(tau)))
 
 
 # ---------------------------------------------------------------- replay
@@ -634,7 +644,10 @@ def cases(tier, seed):
   for (mono, conv, omin, omax, cmin, cmax) in [(1, 0, 0.0, 1.0, False, False), (-1, 0, 0.0, 1.0, False, False),
                                                (1, 0, 0.0, 1.0, True, True), (1, 1, None, None, False, False),
                                                (0, -1, None, None, False, False), (1, 0, None, 1.0, False, False),
-                                               (1, 1, 0.0, 1.0, False, False)]:
+                                               (1, 1, 0.0, 1.0, False, False),
+                                               # one end clamped, the other only bounded (both directions)
+                                               (1, 0, 0.0, 1.0, False, True), (1, 0, 0.0, 1.0, True, False),
+                                               (-1, 0, 0.0, 1.0, True, False), (-1, 0, 0.0, 1.0, False, True)]:
     for N in (1, 4, 8):
       nm = 'pwl-m%d-c%d-b%s,%s-cl%d%d-N%d' % (mono, conv, omin, omax, cmin, cmax, N)
       tau = {1: 1.0, 4: 0.25, 8: 0.0625}[N]
